@@ -227,7 +227,7 @@ static void cmd_meta(void) {
     int32_t nrg = carquet_reader_num_row_groups(g_reader);
     int32_t ncol = carquet_reader_num_columns(g_reader);
     printf(" M=%lld:%d:%d:", (long long)carquet_reader_num_rows(g_reader), nrg, ncol);
-    for (int i = 0; i < nrg && i < 64; i++) {
+    for (int i = 0; i < nrg && i < 4096; i++) {
         carquet_row_group_metadata_t md; memset(&md, 0, sizeof md);
         carquet_status_t st = carquet_reader_row_group_metadata(g_reader, i, &md);
         printf("%s%lld", i ? "," : "", st == CARQUET_OK ? (long long)md.num_rows : -1LL);
@@ -237,7 +237,7 @@ static void cmd_meta(void) {
     printf(":%d:%d", s ? carquet_schema_num_elements(s) : -1, s ? carquet_schema_num_columns(s) : -1);
     /* leaves as seen by column readers: name/type/rep/tlen via the schema's leaf index table */
     if (s) {
-        for (int i = 0; i < s->num_leaves && i < 256; i++) {
+        for (int i = 0; i < s->num_leaves && i < MAXCOLS; i++) {
             const carquet_schema_node_t* nd = carquet_schema_get_element(s, s->leaf_indices[i]);
             const char* nm = nd ? carquet_schema_node_name(nd) : NULL;
             fputc(':', stdout);
